@@ -1065,6 +1065,17 @@ class ParserField:
                     )
 
             discriminator = value.get(self.discriminator)
+            if self.discriminator not in value:
+                # the discriminator may be given under another spelling that a member accepts (alias, case variant)
+                from .cls import ClassParser
+                for arg in self.discriminator_map.values():
+                    cls_parser = ClassParser.resolve_parser(arg)
+                    target = cls_parser.get_field(self.discriminator) if cls_parser else None
+                    key = next((k for k in value if isinstance(k, str) and cls_parser.get_field(k) is target), None) \
+                        if target else None
+                    if key is not None:
+                        discriminator = value[key]
+                        break
             try:
                 matched = discriminator in self.discriminator_map
             except Exception:   # noqa
